@@ -240,6 +240,11 @@ def squash_rule(ctx, res, rule):
     pend_name = None
     for n in T.nodes(inner["body"], "index"):
         pend_name = T.render(T.peel_ref(n["base"]))
+    if pend_name is None:
+        # `while let Some(p) = pending.get(cursor)`
+        for n in T.nodes(inner["while_cond"], "mcall"):
+            if n["name"] == "get" and len(n["args"]) == 1 and T.local_of(T.peel_ref(n["recv"])) is not None:
+                pend_name = T.render(T.peel_ref(n["recv"]))
     cur_name = None
     for n in T.nodes(inner["body"], "assign_op"):
         cur_name = T.render(n["l"])
@@ -275,7 +280,13 @@ def squash_rule(ctx, res, rule):
         if not isinstance(v, A.VecV) or v.base is not None:
             raise A.Cannot("peek on an unknown iterator")
         return A.Variant("Some", [v.items[0]]) if v.items else A.Variant("None")
-    iter_models = {"std::iter::Peekable::next_if": _next_if, "std::iter::Peekable::peek": _peek, "std::iter::Iterator::next": _next}
+    def _get(I_, a, n, env):
+        v, i_ = a[0], a[1]
+        if isinstance(v, A.VecV) and v.base is None and isinstance(i_, A.Lit) and isinstance(i_.v, int):
+            return A.Variant("Some", [v.items[i_.v]]) if 0 <= i_.v < len(v.items) else A.Variant("None")
+        raise A.Cannot("get on an unknown list / index")
+    iter_models = {"std::iter::Peekable::next_if": _next_if, "std::iter::Peekable::peek": _peek, "std::iter::Iterator::next": _next,
+                   "core::slice::get": _get, "core::slice::<impl [T]>::get": _get, "std::vec::Vec::get": _get}
     rows = bad = 0
     first_bad = None
     for rs, re_, ps, pe in itertools.product(range(5), repeat=4):
